@@ -11,9 +11,11 @@ def register(PROPS):
                  'FREQ=YEARLY;BYMONTH=m;BYMONTHDAY=d three streams are read: unlimited from 2020-01-01 (the images of the source years 2023..2030 must '
                  'occur exactly once and nothing else between them), DTSTART 2023-01-01 with COUNT=8, and DTSTART 2023-01-01 with UNTIL=2030-12-31 '
                  '(the whole stream must be what the limits leave of the shifted dates).  Every text goes through echs_evical_push/pull; '
-                 'complete within these bounds in the thorough tier.',
+                 'complete within these bounds in the thorough tier.  A further family (multi) has SEVERAL selected dates per period - '
+                 'BYMONTH=1,6;BYMONTHDAY=5 / BYMONTH=12;BYMONTHDAY=1,25 / BYMONTH=1,12;BYMONTHDAY=1,31 / BYDAY=1MO,20MO (YEARLY) and BYMONTHDAY=1,28 (MONTHLY), '
+                 'each with INTERVAL 1 and 2, from 2020-01-01 - and judges every occurrence in 2023..2030 against the shifted images of the selected dates.',
         'note': 'Where README + property text are silent the oracle accepts every defensible reading (see assumptions), so it is lenient there; '
-                'combined specs (SHIFT=x,yB), FREQ=MONTHLY rules, timed DTSTARTs and other BY* parts together with SHIFT/BYEASTER are not in the grammar '
+                'combined specs (SHIFT=x,yB), FREQ=MONTHLY rules other than those of the multi family, timed DTSTARTs and other BY* parts together with SHIFT/BYEASTER are not in the grammar '
                 '(C16 covers their ordering and bounds).',
         'rule': 'easter: a case is one N (one stream, 199 year-offsets inside; evaluations count year-offsets); shift: a case is one (family, spec, month) '
                 'with one stream per day of the month inside (evaluations count streams).  Cases are distinct by construction; non-trivial = every easter '
@@ -25,6 +27,8 @@ def register(PROPS):
         },
         'drivers': [
             D('c17_easter_shift', ['mode=long', 'nlist=quick', 'ymax=1945'], ['mode=long', 'nlist=all', 'ymax=1961'], label='shift-long'),
+            D('c17_easter_shift', ['mode=multi', 'nlist=quick', '--sample-every', '41'], ['mode=multi', 'nlist=all', '--sample-every', '401'], label='shift-multi', shards=4),
+            D('c17_easter_shift', ['mode=multi', 'nlist=quick', 'nocount=1', '--samples', '0'], label='shift-multi-asan', variant='asan', shards=4),
             D('c17_easter_shift', ['mode=easter', '--sample-every', '61'], label='easter', shards=8),
             D('c17_easter_shift', ['mode=shift', 'fam=plain', 'nlist=quick', '--sample-every', '97'],
               ['mode=shift', 'fam=plain', 'nlist=all', '--sample-every', '1777'], label='shift-plain'),
